@@ -62,6 +62,23 @@ def open_(filename, *flags):
 
 
 @contextmanager
+def open_atomic(filename, *flags):
+    """
+    Open a file for writing such that `filename` only ever holds its previous content or the complete
+    new content: the data is written to a temporary file beside it, which replaces `filename` once closed.
+
+    Files that are read back when a fit is resumed (samples summary, search internal, timer) are written
+    this way, so that a fit interrupted in the middle of a write can be resumed.
+    """
+    filename = Path(filename)
+    os.makedirs(filename.parent, exist_ok=True)
+    temporary = filename.with_name(f"{filename.name}.tmp")
+    with open(temporary, *flags) as f:
+        yield f
+    os.replace(temporary, filename)
+
+
+@contextmanager
 def suppress_stdout():
     with open(os.devnull, "w") as devnull:
         old_stdout = sys.stdout
